@@ -43,6 +43,14 @@ if ALT_REPO:
     open(os.path.join(_c, "Cargo.toml"), "w").write(_t)
     CRATE = _c
     REPO = ALT_REPO
+# Development only (never used by a registered command): VERIF_CRATE=<copy of harness/vh> runs the
+# obligations on a scratch copy of the harness crate (own work directory, no evidence written) so
+# that half-edited harnesses cannot break a check that is running from /verif/harness/vh.
+DEV_CRATE = os.environ.get("VERIF_CRATE")
+if DEV_CRATE and not ALT_REPO:
+    CRATE = os.path.abspath(DEV_CRATE)
+    WORK = os.path.join(VERIF, ".work", "dev")
+    os.makedirs(WORK, exist_ok=True)
 TOTAL_MEM_GB = 52
 
 sys.path.insert(0, os.path.join(VERIF, "lib"))
@@ -690,7 +698,7 @@ def main(argv):
     violations = 0
     inconclusive = 0
     known_hits = []
-    replay_dir = os.path.join(WORK if ALT_REPO else VERIF, "replays", pid)
+    replay_dir = os.path.join(WORK if (ALT_REPO or DEV_CRATE) else VERIF, "replays", pid)
     for r in results:
         if r.status == "SUCCESSFUL":
             continue
@@ -794,7 +802,7 @@ def handle_failure(pid, r, known, replay_dir, logdir, known_hits):
 
 
 def write_evidence(pid, tier, seed, spec, results, wall, violations, note=None):
-    if ALT_REPO or tier == "attempt" or os.environ.get("VERIF_ONLY"):
+    if ALT_REPO or DEV_CRATE or tier == "attempt" or os.environ.get("VERIF_ONLY"):
         return  # experiments (other tree, attempt tier, --only subsets) never touch the committed evidence
     os.makedirs(os.path.join(VERIF, "evidence"), exist_ok=True)
     witnesses = [r for r in results if r.ob.get("expect_fail")]
